@@ -12,7 +12,7 @@ race=""; grep -q -- "-race" "$dir/notes.md" 2>/dev/null && race="-race"
 D=$(mktemp -d); mkdir -p "$D/vd"; cp /verif/known_findings.json /verif/trusted_sites.json /verif/baseline_functions.txt "$D/vd/"
 git -C /repo worktree add -q "$D/w" HEAD || exit 2
 cd "$D/w"
-cp "$dir/demo_test.go" "./$pkg/zz_seed3_demo_test.go"
+cp "$dir/demo_test.go" "./$pkg/zz_seed3_demo_test.go" 2>/dev/null || cp "$dir/zz_seed_demo_test.go" "./$pkg/zz_seed3_demo_test.go"
 echo "== unpatched + demo: $(go test $race -vet=off -count=1 "./$pkg/" 2>&1 | tail -1)"
 rm "./$pkg/zz_seed3_demo_test.go"
 if ! git apply "$dir/patch.diff" 2>/dev/null; then
@@ -21,7 +21,7 @@ if ! git apply "$dir/patch.diff" 2>/dev/null; then
 fi
 echo "== patched build: $(go build ./... 2>&1 | head -3)"
 echo "== patched suite: $(go test -vet=off -count=1 ./... 2>&1 | grep -v 'no test files' | grep -v '^ok' | head -5)"
-cp "$dir/demo_test.go" "./$pkg/zz_seed3_demo_test.go"
+cp "$dir/demo_test.go" "./$pkg/zz_seed3_demo_test.go" 2>/dev/null || cp "$dir/zz_seed_demo_test.go" "./$pkg/zz_seed3_demo_test.go"
 echo "== patched + demo: $(go test $race -vet=off -count=1 "./$pkg/" 2>&1 | grep -E '^(--- FAIL|FAIL|ok|panic)' | head -3 | tr '\n' ' ')"
 rm "./$pkg/zz_seed3_demo_test.go"
 echo "== checks on the patched worktree"
